@@ -80,15 +80,25 @@ def unique_rule(ctx, p, K):
     chk = E_("pix_check", pix)
     cname = acc_name_of(su[0].idx[1]) if len(su[0].idx) == 2 else None
     slot_new = S_(cname + "~") if cname else None
-    seen = norm_cond(CMP(chk, ">", Poly.const(Fraction(-1, 2))))
-    rep = [s for s in sw if len(real_guards(s.guards)) == 1 and norm_cond(real_guards(s.guards)[0]) == seen]
+    # "first occurrence of this source pixel for this data pixel": the remembered slot is still the -1 it is cleared to (the memory only ever holds -1 or a slot >= 0 - decided
+    # under :memory below - so every test that separates -1 from the non-negative integers is the same test)
+    ichk = Poly.fn("int", chk)
+    FIRST = {norm_cond(c_) for c_ in (CMP(chk, "<=", Poly.const(Fraction(-1, 2))), CMP(chk, "<", ZERO), CMP(ichk, "<", ZERO), CMP(chk, "==", NEG1), CMP(ichk, "==", NEG1), CMP(chk, "<", Poly.const(Fraction(-1, 2))),
+                                      CMP(ichk, "<=", NEG1), CMP(chk, "<=", NEG1))}
+
+    def is_first(c_):
+        return norm_cond(c_) in FIRST
+
+    def is_seen(c_):
+        return norm_cond(c_.negate()) in FIRST
+    rep = [s for s in sw if len(real_guards(s.guards)) == 1 and is_seen(real_guards(s.guards)[0])]
     new = [s for s in sw if s not in rep]
     merged = None
     if len(sw) == 1 and not real_guards(sw[0].guards):
         # merged spelling: the first-occurrence branch records the new slot in pix_check[pix] and ONE accumulation after the branch adds at the remembered slot
         # (which on a first occurrence is the slot just recorded).  Equivalent exactly when the slot is remembered before the accumulation reads it.
         rem = [s for s in S.stores_to("pix_check") if len(s.loops) == 3]
-        if len(rem) == 1 and rem[0].node.lineno < sw[0].node.lineno and len(real_guards(rem[0].guards)) == 1 and norm_cond(real_guards(rem[0].guards)[0].negate()) == seen:
+        if len(rem) == 1 and rem[0].node.lineno < sw[0].node.lineno and len(real_guards(rem[0].guards)) == 1 and is_first(real_guards(rem[0].guards)[0]):
             merged = rem[0]
             rep, new = [sw[0]], [rem[0]]
     ok = len(rep) == 1 and len(new) == 1 and all(s.op == "+=" and value_poly(s.value) == term for s in sw)
@@ -96,7 +106,11 @@ def unique_rule(ctx, p, K):
            message="a repeat of a source pixel must ADD sub_fraction * weight to its existing slot and a first occurrence must add the same term to a new slot (sub_fraction = 1 / sub_size[ip]^2)")
     if ok and cname:
         r, nw = rep[0], new[0]
-        okslots = r.idx in ((ip, Poly.fn("fdiv", chk, ONE)), (ip, Poly.fn("int", chk)), (ip, chk)) and (merged is not None or nw.idx == (ip, slot_new)) and su[0].idx == (ip, slot_new) and value_poly(su[0].value) == pix \
+        # merged spelling with the slot chosen first: idx = ite(first occurrence, new slot, remembered slot)
+        from ..keval import cond_poly
+        sel = {Poly.fn("ite", cond_poly(c_)[0], *((slot_new, x_) if not cond_poly(c_)[1] else (x_, slot_new))) for c_ in (CMP(chk, "<=", Poly.const(Fraction(-1, 2))), CMP(chk, "<", ZERO), CMP(ichk, "<", ZERO), CMP(ichk, "==", NEG1), CMP(chk, "==", NEG1))
+               for x_ in (ichk, chk)} if slot_new is not None else set()
+        okslots = (r.idx in ((ip, Poly.fn("fdiv", chk, ONE)), (ip, Poly.fn("int", chk)), (ip, chk)) or (merged is not None and len(r.idx) == 2 and r.idx[0] == ip and r.idx[1] in sel)) and (merged is not None or nw.idx == (ip, slot_new)) and su[0].idx == (ip, slot_new) and value_poly(su[0].value) == pix \
             and {c_.key() for c_ in real_guards(su[0].guards)} == {c_.key() for c_ in real_guards(nw.guards)}
         ctx.ob(rule, f.key + ":slots", okslots, where=f, node=nw.node, construct=f"repeat -> {list(map(repr, r.idx))}; new -> {list(map(repr, nw.idx))}; index store {list(map(repr, su[0].idx))}",
                message="a repeat is added at the slot remembered for that source pixel; a new source pixel takes the next free slot, where its index is recorded")
